@@ -213,7 +213,16 @@ def run(ctx):
                 ev.update(raised=True, exc=f"{type(e).__name__}: {e}"[:160])
         else:
             c = [ctx.rng.randint(1, 40) for _ in range(ctx.rng.randint(3, 30))]
-            cminr = ctx.rng.choice([[1, 1], [2, 1], [3, 1], [5, 2], [7, 2]])
+            cminr = [[1, 1], [2, 1], [3, 1], [5, 2], [7, 2]][(r // 12) % 5]           # every cutoff with every sample shape, in turn
+            shape = (r // 4) % 3
+            if shape == 1:
+                # steep: almost every count at the cutoff, a few just above it (maximisers between 3 and the upper bound 4.5)
+                base = cminr[0] // cminr[1] + (1 if cminr[0] % cminr[1] else 0)
+                c = [base + (0 if ctx.rng.random() < 0.9 else ctx.rng.choice([1, 1, 2])) for _ in range(ctx.rng.randint(60, 300))]
+                c[0] = base + 1
+            elif shape == 2:
+                # heavy tail: a Zipf-like sample with a few very large clones (maximisers near the lower bound 1.5)
+                c = [max(1, int(1.0 / (ctx.rng.random() ** 1.6 + 1e-4))) for _ in range(ctx.rng.randint(20, 120))]
             cmin = cminr[0] / cminr[1]
             c += [int(cmin), int(cmin) + 1, max(1, int(cmin) - 1)]       # counts just below / at / above the threshold (and within 1/2 of it)
             ctx.rng.shuffle(c)
